@@ -204,6 +204,103 @@ class Body:
                 q.append(s)
         return seen
 
+    # ---------------------------------------------------------------- path-sensitive reachability (bool threading)
+    def _bool_locals(self):
+        """locals of type bool that are only ever assigned constants, `Not` of such a local, or copies of one:
+        the desugaring of `&&`, `||`, `matches!` and match guards merges their value through such locals"""
+        if getattr(self, "_bl", None) is not None:
+            return self._bl
+        cand = {i for i, t in enumerate(self.d["locals"]) if self.types[t]["s"] == "bool"}
+        changed = True
+        while changed:
+            changed = False
+            for i, j, place, rv, line in self.assigns():
+                l = place[0]
+                if l not in cand:
+                    continue
+                ok = False
+                if not place[1]:
+                    if rv[0] == "use":
+                        o = rv[1]
+                        if o[0] == "k" and "int" in o[1]:
+                            ok = True
+                        elif o[0] in ("c", "m") and not o[1][1] and o[1][0] in cand:
+                            ok = True
+                    elif rv[0] == "un" and rv[1] == "Not":
+                        o = rv[2]
+                        if o[0] in ("c", "m") and not o[1][1] and o[1][0] in cand:
+                            ok = True
+                if not ok:
+                    cand.discard(l)
+                    changed = True
+            for i, blk in enumerate(self.blocks):
+                t = blk["t"]
+                if t[0] == "call" and t[3][0] in cand:
+                    cand.discard(t[3][0])
+                    changed = True
+        self._bl = cand
+        return cand
+
+    def reachable_threaded(self, start=0, avoid_blocks=(), avoid_edges=()):
+        """like reachable(), but tracks the constant value of merge-only bool locals along each path and follows
+        only the matching edge of a switch on such a local. Returns the set of reachable blocks."""
+        bl = self._bool_locals()
+        avoid_blocks = set(avoid_blocks)
+        avoid_edges = set(avoid_edges)
+        starts = [start] if isinstance(start, int) else list(start)
+        seen = set()
+        q = deque()
+        for s in starts:
+            if s not in avoid_blocks:
+                st = (s, frozenset())
+                seen.add(st)
+                q.append(st)
+        out = set()
+        while q:
+            b, env = q.popleft()
+            out.add(b)
+            e = dict(env)
+            for stt in self.blocks[b]["s"]:
+                if stt[0] == "=" and not stt[1][1] and stt[1][0] in bl:
+                    rv = stt[2]
+                    l = stt[1][0]
+                    if rv[0] == "use" and rv[1][0] == "k":
+                        e[l] = 1 if rv[1][1].get("int") else 0
+                    elif rv[0] == "use":
+                        src = rv[1][1][0]
+                        if src in e:
+                            e[l] = e[src]
+                        else:
+                            e.pop(l, None)
+                    elif rv[0] == "un":
+                        src = rv[2][1][0]
+                        if src in e:
+                            e[l] = 1 - e[src]
+                        else:
+                            e.pop(l, None)
+                elif stt[0] == "sd" and stt[1] in e:
+                    pass
+            t = self.blocks[b]["t"]
+            nxt = list(self.succ(b))
+            if t[0] == "switch" and t[1][0] in ("c", "m") and not t[1][1][1] and t[1][1][0] in e:
+                v = e[t[1][1][0]]
+                tgt = None
+                for val, bb in t[2]:
+                    if val == v:
+                        tgt = bb
+                nxt = [tgt if tgt is not None else t[3]]
+            if len(e) > 12:
+                e = dict(list(e.items())[-12:])
+            fe = frozenset(e.items())
+            for s in nxt:
+                if s in avoid_blocks or (b, s) in avoid_edges:
+                    continue
+                st = (s, fe)
+                if st not in seen:
+                    seen.add(st)
+                    q.append(st)
+        return out
+
     def return_blocks(self):
         return [i for i, b in enumerate(self.blocks) if b["t"][0] in ("ret", "tailcall")]
 
